@@ -64,6 +64,52 @@ MUTATIONS = {
     "new-public-function": ("C12", "fs/path.py",
         "_WILD_CHARS = frozenset(",
         'def isroot(path):\n    # type: (Text) -> bool\n    return path == "/"\n\n\n_WILD_CHARS = frozenset(', "refactor"),
+    # ---- fs/wildcard.py, fs/glob.py (harness/extract/puregen.py; design.d/GEN2.md)
+    "wild-question-optional": ("C14", "fs/wildcard.py",
+        '        elif c == "?":\n            res.append(".")\n', '        elif c == "?":\n            res.append(".?")\n', "semantic"),
+    "wild-question-not-slash": ("C14", "fs/wildcard.py",      # invisible on file names (they contain no "/")
+        '        elif c == "?":\n            res.append(".")\n', '        elif c == "?":\n            res.append("[^/]")\n', "semantic"),
+    "wild-no-leading-bracket": ("C14", "fs/wildcard.py",
+        '            if j < n and pattern[j] == "]":\n                j = j + 1\n', "", "semantic"),
+    "wild-rename-local": ("C14", "fs/wildcard.py", "stuff", "body", "refactor"),
+    "wild-swap-branches": ("C14", "fs/wildcard.py",
+        '            if j >= n:\n                res.append("\\\\[")\n            else:\n'
+        '                stuff = pattern[i:j].replace("\\\\", "\\\\\\\\")\n                i = j + 1\n'
+        '                if stuff[0] == "!":\n                    stuff = "^" + stuff[1:]\n'
+        '                elif stuff[0] == "^":\n                    stuff = "\\\\" + stuff\n'
+        '                res.append("[%s]" % stuff)\n',
+        '            if j < n:\n'
+        '                stuff = pattern[i:j].replace("\\\\", "\\\\\\\\")\n                i = j + 1\n'
+        '                if stuff[0] == "!":\n                    stuff = "^" + stuff[1:]\n'
+        '                elif stuff[0] == "^":\n                    stuff = "\\\\" + stuff\n'
+        '                res.append("[%s]" % stuff)\n            else:\n                res.append("\\\\[")\n', "refactor"),
+    "glob-tail-ignores-slash": ("C14", "fs/glob.py",
+        '("/\\\\Z" if pattern.endswith("/") else "/?\\\\Z")', '"/?\\\\Z"', "semantic"),
+    "glob-split-ignores-brackets": ("C14", "fs/glob.py",
+        '        if c == "/" and not bracket_open:\n', '        if c == "/":\n', "semantic"),
+    "glob-rename-local": ("C14", "fs/glob.py", "re_patterns", "pieces", "refactor"),
+    "glob-matcher-negated": ("C14", "fs/glob.py",
+        "    matcher = match_any if case_sensitive else imatch_any\n",
+        "    matcher = imatch_any if not case_sensitive else match_any\n", "refactor"),
+    # ---- fs/permissions.py (harness/extract/permgen.py)
+    "perm-asstr-wrong-index": ("C10", "fs/permissions.py",
+        '            perms[2] = "s" if "u_x" in self._perms else "S"\n', '            perms[3] = "s" if "u_x" in self._perms else "S"\n', "semantic"),
+    "perm-parse-short-group": ("C10", "fs/permissions.py", "        group = ls[3:6]\n", "        group = ls[3:5]\n", "semantic"),
+    "perm-rename-local": ("C10", "fs/permissions.py", "perm_str", "text", "refactor"),
+    "perm-check-issubset": ("C10", "fs/permissions.py",
+        "        return self._perms.issuperset(permissions)\n", "        return set(permissions).issubset(self._perms)\n", "refactor"),
+    "perm-mode-inverted": ("C10", "fs/permissions.py",
+        "            if name in self._perms:\n                mode |= mask\n", "            if name not in self._perms:\n                mode |= mask\n", "semantic"),
+    # ---- fs/tools.py copy_file_data (harness/extract/puregen.py)
+    "tools-chunk-default-zero": ("C02", "fs/tools.py",
+        "    _chunk_size = chunk_size or 1024 * 1024\n", "    _chunk_size = chunk_size or 0\n", "semantic"),
+    "tools-write-first-byte": ("C02", "fs/tools.py", "        write(chunk)\n", "        write(chunk[:1])\n", "semantic"),
+    "tools-rename-local": ("C02", "fs/tools.py", "_chunk_size", "size", "refactor"),
+    "tools-no-aliases": ("C02", "fs/tools.py",
+        "    read = src_file.read\n    write = dst_file.write\n    # The 'or None' is so that it works with binary and text files\n"
+        "    for chunk in iter(\n        lambda: read(_chunk_size) or None, None\n    ):  # type: Optional[Union[bytes, str]]\n"
+        "        write(chunk)\n",
+        "    for chunk in iter(lambda: src_file.read(_chunk_size) or None, None):\n        dst_file.write(chunk)\n", "refactor"),
     "mode-reorder-or": ("C16", "fs/mode.py",
         '        return "a" in self or "w" in self or "x" in self\n',
         '        return "x" in self or "w" in self or "a" in self\n', "refactor"),
